@@ -18,6 +18,7 @@ RULE = ("differential run of every iterator tool against its stdlib twin on the 
 ASSUMPTIONS = ["the stdlib of the running interpreter (3.12) is the reference",
                "documented deviations encoded: accumulate([]) without initial raises TypeError; tee handle indexable",
                "batched(strict=True) reference = itertools.batched + ValueError on a short batch (3.13 semantics)"]
+EXHAUSTIVE_SUBSPACES = 'every islice (start,stop,step) tuple over start in {None,0..4}, stop in {None,0..6}, step in {None,1,2,3} and the 1- and 2-argument forms x lengths 0..7 (quick: 0..5); batched n=1..5 x strict in {absent,False,True} x lengths; every length vector 0..3 for 1..4 iterables (quick: 1..3) for zip, zip strict, zip_longest, chain, chain.from_iterable, map, merge (all-equal keys, increasing keys, constant key; both directions)'
 EXHAUSTIVE = {"quick": False, "thorough": False}
 
 N_RANDOM = {"quick": 150000, "thorough": 8000000}
